@@ -321,7 +321,7 @@ func join(a, b context, node parse.Node, nodeName string) context {
 	// contents of a are always returned.
 	a.element.names = joinNames(a.element.name, b.element.name, a.element.names, b.element.names)
 	a.attr.names = joinNames(a.attr.name, b.attr.name, a.attr.names, b.attr.names)
-	if a.attr.value != b.attr.value {
+	if a.attr.value != b.attr.value || b.attr.ambiguousValue {
 		a.attr.ambiguousValue = true
 	}
 
